@@ -37,12 +37,12 @@ def frob_scale(Alist):
 
 
 def abs_scale(Alist):
-    """Like frob_scale, but never zero (an all-zero tensor contributes factor 1)."""
+    """Like frob_scale, but never zero (an all-zero tensor contributes factor 1) and safe for extreme magnitudes."""
     s = 1.0
     for A in Alist:
-        n = float(np.linalg.norm(np.asarray(A, dtype=complex)))
-        s *= n if n > 0 else 1.0
-    return s
+        n = safe_norm(np.asarray(A, dtype=complex))
+        s *= n if (n > 0 and np.isfinite(n)) else 1.0
+    return s if np.isfinite(s) and s > 0 else 1.0
 
 
 def outer_sum(qs):
